@@ -222,7 +222,9 @@ def _c03_oracle(tr, origin, meta):
     if meta:
         out += oracles.c02_values(tr, origin, meta['types']) + oracles.c06_assets(tr, origin, meta['enabled'])
     else:
-        out += oracles.c02_values(tr, origin)        # corpus scenarios register every type on every peer
+        # corpus scenarios register every type on every peer; a SkinnedMesh (type 8) names local entity ids:
+        # compared through uuids by oracles.c16_skins instead
+        out += oracles.c02_values(tr, origin, [t for t in range(100) if t != 8])
         try:
             text = open(origin['scenario']).read()
         except (OSError, KeyError):
@@ -235,8 +237,10 @@ def _c03_oracle(tr, origin, meta):
 def run_c03(ctx):
     n = _tier(ctx, 20, 240)
     jobs, metas = _jobs_from(scen.join, 'C03', ctx['seed'], n)
-    jobs = pc.corpus_jobs(['S18_*.scn', 'S11_*.scn', 'R1_*.scn', 'S12_*.scn', 'S25_*.scn', 'S26*.scn']) + jobs
-    out = pc.run_scenarios('C03', ctx, jobs, [_with_meta(metas, _c03_oracle)], nontrivial=pc.received_kinds)
+    # joiners of sessions with skins (the snapshot must carry a joint before the skin that names it, S13)
+    gk, _ = _jobs_from(scen.skinned_join, 'C03k', ctx['seed'], _tier(ctx, 4, 40))
+    jobs = pc.corpus_jobs(['S18_*.scn', 'S11_*.scn', 'R1_*.scn', 'R2_*.scn', 'S12_*.scn', 'S13_*.scn', 'S25_*.scn', 'S26*.scn', 'S30_*.scn']) + jobs + gk
+    out = pc.run_scenarios('C03', ctx, jobs, [_with_meta(metas, _c03_oracle), oracles.c16_skins], nontrivial=pc.received_kinds)
     out['opstats']['entity_model_replays'] = _absent(out)
     return pc.make_result('C03', ctx, out, 'frames of histories in which the last client joins at a random moment (idle or while the others keep writing), 8 switch combinations; non-trivial = distinct (scenario, receiver, kind, key) received',
                           assumptions=['download threads and sockets are outside the model: a finished download is an oracle event'])
@@ -344,7 +348,8 @@ def run_c06(ctx):
     n = _tier(ctx, 16, 200)
     jj, _ = _jobs_from(scen.join, 'C06j', ctx['seed'], max(6, n // 2))
     jb, _ = _jobs_from(scen.asset_burst, 'C06b', ctx['seed'], max(4, n // 4))
-    jobs = pc.corpus_jobs(['S7_*.scn', 'S12_*.scn', 'S26*.scn']) + pc.generated_jobs('C06', ctx['seed'], n, ['assets']) + jj + jb
+    jo, _ = _jobs_from(scen.asset_overwrite_back, 'C06o', ctx['seed'], max(4, n // 4))
+    jobs = pc.corpus_jobs(['S7_*.scn', 'S12_*.scn', 'S26*.scn']) + pc.generated_jobs('C06', ctx['seed'], n, ['assets']) + jj + jb + jo
     metas = {name: _c06_meta(text) for name, text in jobs}
 
     def orc(tr, origin):
@@ -381,6 +386,9 @@ def run_c07(ctx):
     n = _tier(ctx, 10, 120)
     jobs = pc.corpus_jobs(['S8_*.scn', 'S9_*.scn', 'S27_*.scn']) + pc.generated_jobs('C07', ctx['seed'], n, ['promotion'], npeers=2)
     jobs += pc.generated_jobs('C07m', ctx['seed'], max(2, n // 5), ['promotion'], npeers=3)
+    # a promotion while a late joiner's snapshot is still being transmitted (NewHost behind a backlog)
+    gb, _ = _jobs_from(scen.promotion_backlog, 'C07b_noreplay', ctx['seed'], _tier(ctx, 1, 6))
+    jobs += gb
     out = pc.run_scenarios('C07', ctx, jobs, [_c07_oracle], nontrivial=pc.received_kinds)
     nrep, nskip = _absprom(out)
     out['opstats']['promotion_model_reachability_checks'] = nrep
